@@ -2,6 +2,7 @@ package replication
 
 import (
 	"fmt"
+	"sync"
 
 	"github.com/pkg/errors"
 	"google.golang.org/grpc"
@@ -21,6 +22,9 @@ type GRPCReplicationServer struct {
 	CertKeyFile string
 	// Key: IPAddr (e.g. "192.125.18.1:25"), Value: channel for messages sent to each gRPC stream
 	StreamChannels map[string]chan []byte
+	// mu guards StreamChannels: stream handlers register and unregister
+	// themselves while the sender goroutine fans messages out.
+	mu sync.Mutex
 }
 
 func NewGRPCReplicationServer() *GRPCReplicationServer {
@@ -49,7 +53,9 @@ func (rs *GRPCReplicationServer) GetWALStream(_ *pb.GetWALStreamRequest, stream 
 	log.Info(fmt.Sprintf("new replica connection from:%s", clientAddr))
 
 	streamChannel := make(chan []byte, defaultReplicationStreamChannelSize)
+	rs.mu.Lock()
 	rs.StreamChannels[clientAddr] = streamChannel
+	rs.mu.Unlock()
 
 	// infinite loop
 	for {
@@ -69,8 +75,12 @@ func (rs *GRPCReplicationServer) GetWALStream(_ *pb.GetWALStreamRequest, stream 
 	}
 
 	// when an error occurred / client connection is closed, close the channel
+	// Unregister only. The channel is not closed: the sender may have picked it
+	// up just before and a send on a closed channel would panic; this handler is
+	// its only receiver, so it is simply dropped.
+	rs.mu.Lock()
 	delete(rs.StreamChannels, clientAddr)
-	close(streamChannel)
+	rs.mu.Unlock()
 	log.Info(fmt.Sprintf("[master] closed replication connection: %v", clientAddr))
 
 	return nil
@@ -78,7 +88,16 @@ func (rs *GRPCReplicationServer) GetWALStream(_ *pb.GetWALStreamRequest, stream 
 
 func (rs *GRPCReplicationServer) SendReplicationMessage(transactionGroup []byte) {
 	// send a replication message to each replica
+	// snapshot the registered streams under the lock, send outside it (a send
+	// may block on a slow replica and must not block registration)
+	rs.mu.Lock()
+	channels := make(map[string]chan []byte, len(rs.StreamChannels))
 	for ip, channel := range rs.StreamChannels {
+		channels[ip] = channel
+	}
+	rs.mu.Unlock()
+
+	for ip, channel := range channels {
 		log.Debug("sending a replication message to %s", ip)
 		channel <- transactionGroup
 	}
